@@ -1,6 +1,9 @@
 package main
 
-import "time"
+import (
+	"strings"
+	"time"
+)
 
 // temporary smoke test of the Sem correspondence on the corpus
 func runSemSmoke(cfg Config, r *Result) {
@@ -35,3 +38,48 @@ func runSemSmoke(cfg Config, r *Result) {
 }
 
 func init() { register("semsmoke", runSemSmoke) }
+
+func runGenSmoke(cfg Config, r *Result) {
+	model, err := StartModel("sem")
+	if err != nil {
+		r.Violate(Violation{Kind: "correspondence", Key: "model-start", Detail: err.Error()})
+		return
+	}
+	defer model.Close()
+	n := cfg.N(1000, 20000)
+	for i := 0; i < n; i++ {
+		src, _, _ := GenProgram(cfg.Rng, GenOpts{MaxStmts: 8, MaxDepth: 2, Funcs: true, Specials: true, Tests: true, Gfx: true, MapLitPure: true})
+		d := SemCompare(model, src, SemOpts{StopAt: -1, YieldBudget: 100000}, true)
+		r.Count(src, true)
+		switch {
+		case d.Skipped != "":
+			k := d.Skipped
+			if k == "parse-error" {
+				pe := d.Impl.ParseErr
+				if i := strings.Index(pe, ": "); i > 0 {
+					pe = pe[i+2:]
+				}
+				if len(pe) > 50 {
+					pe = pe[:50]
+				}
+				r.Dist("parse-error: " + pe)
+				if len(r.Samples) < 8 && strings.Contains(d.Impl.ParseErr, "whitespace") {
+					r.Sample(map[string]any{"src": src, "err": d.Impl.ParseErr})
+				}
+				continue
+			}
+			if len(k) > 40 {
+				k = k[:40]
+			}
+			r.Dist("skipped:" + k)
+		case d.Diff != "":
+			r.Dist("diff")
+			r.Violate(Violation{Kind: "correspondence", Key: d.Diff, Detail: d.Diff, Input: src, Impl: d.Impl.Phases, Model: d.Model})
+		default:
+			r.Dist("equal:" + d.Impl.Phases[0].Class)
+			r.Validated++
+		}
+	}
+}
+
+func init() { register("gensmoke", runGenSmoke) }
